@@ -4,6 +4,7 @@ CONSTANTS
   Caps = {1, 2, 3, 4}
   Kinds = {"read", "write"}
   WhoPats = {"alt"}
+  Resets = FALSE
   Quiets = {FALSE}
 INVARIANT TypeOK
 INVARIANT InOrder
